@@ -481,6 +481,14 @@ func buildUpdateEvents(graph *Graph, repoDir, id string, task *Task, updates map
 		if !epic.IsEpic {
 			return nil, fmt.Errorf("task %s is not an epic", epicID)
 		}
+		alreadyStuck := hasWaitCycle(graph)
+		previous := task.EpicID
+		task.EpicID = epicID
+		cyclic := hasWaitCycle(graph)
+		task.EpicID = previous
+		if cyclic && !alreadyStuck {
+			return nil, errors.New("epic assignment would create a cycle through epic dependencies")
+		}
 	}
 
 	// Build events using pure function, passing I/O-dependent body resolver
